@@ -97,6 +97,9 @@ def signature(tr, mask):
 
 
 def describe(tr, mask):
+    if tr["kind"] == "scale":
+        return ("a short sequence against %d distinct %s symbols: levenshtein_distance=%s / %s (arguments swapped), ErrorsSummary=%s, "
+                "the edit distance is %d" % (tr["n"], tr["symbols"], tr["dist"], tr["dist_r"], tr["summ"], tr["ref"]))
     if tr["kind"] == "agg":
         return "ErrorsSummary.aggregate over %s (handed over as a %s): %s is not the field-wise sum of %s" % (
             tr["pairs"], tr.get("container", "list"), tr["agg"], tr["items"])
@@ -127,6 +130,8 @@ def judge(ctx, cases, traces, alphabet, maxlen, label):
         if tr["kind"] == "pair":
             nt = len(tr["src"]) > 0 and len(tr["tgt"]) > 0 and tr["src"] != tr["tgt"]
             ctx.count(1, (tr["variant"], tuple(tr["src"]), tuple(tr["tgt"]), tuple(tr["cost"])) if nt else None)
+        elif tr["kind"] == "scale":
+            ctx.count(1, ("scale", tr["n"], tr["symbols"], tr["seed"]))
         else:
             ctx.count(1, ("agg", repr(tr["pairs"])))
     for i in drift:
@@ -204,11 +209,15 @@ def run(ctx):
     aggs = agg_cases(ctx, 2, 3, 60 if quick else 400)
     traces = [E.run_agg(c) for c in aggs]
     judge(ctx, aggs, traces, 2, 3, "aggregate")
+    # scale: more distinct symbols in one pair than any 16-bit code can tell apart
+    scale = [{"kind": "scale", "n": n, "symbols": k, "seed": ctx.seed * 97 + n % 89} for n, k in
+             ([(70000, "int"), (66000, "str")] if quick else [(70000, "int"), (66000, "str"), (140000, "int"), (300, "str"), (33000, "int")])]
+    judge(ctx, scale, [E.run_scale(c) for c in scale], 2, 3, "scale")
     ctx.notes["explanation"] = ("TLC exhaustive on EditDistance per bounds (invariants %s) + Legacy self-test; every pair x cost triple executed on "
                                 "pero_ocr.sequence_alignment / ErrorsSummary and decided by EditDistance_Trace (property level; tie-breaks = drift)" % INVS)
 
 
 def replay(ctx, case):
     c = case["case"]
-    tr = E.run_agg(c) if c.get("kind") == "agg" else E.run_pair(c)
+    tr = E.run_agg(c) if c.get("kind") == "agg" else (E.run_scale(c) if c.get("kind") == "scale" else E.run_pair(c))
     judge(ctx, [c], [tr], case["alphabet"], case["maxlen"], "replay")
